@@ -27,6 +27,13 @@ func C02(e *Env) {
 	loopExitRule(e, "R02.7", compilerRel, "an element after the exit is never compiled", "resolveArgs", "StepCompileServices.serviceCalls", "StepCompileServices.serviceTags", "StepCompileServices.serviceFields", "StepCompileDecorators.Process", "StepCompileServices.Process", "StepCompileParams.Process")
 	sortSites(e, "R02.4s")
 	r.Rule("R02.4s", "nothing in module code reorders a slice except the three reviewed sort sites (sorted map keys, imports by path, matched files)", 3)
+	c02ResolverChain(e, "R02.1")
+	r.Rule("R02.1", "argument-resolver chain: each strategy's accepted class is read from its Supports; the catch-all (pattern) is last, the others are pairwise disjoint and all documented forms are wired, so every argument form is compiled by the resolver the documentation names", 8)
+	c06Recorded(e)
+	c06Copies(e)
+	r.Rule("R06.4", "what a resolver emits is what it records, and the resolver's result is copied field by field into output.Arg (shared with C06)", 8)
+	c03Sanitise(e)
+	r.Rule("R03.1", "argument payloads reach the generated code quoted, exported or as grammar-checked groups (shared with C03): non-string literals keep their value and type through exporter.MustExport", 14)
 	c02More(e)
 	r.NotCovered = append(r.NotCovered,
 		"what the runtime library does with the registered constructor, fields and calls (objects observed at run time)",
